@@ -11,9 +11,45 @@ from ..wiring import parse_item_outcomes
 LEVEL = 'other'
 
 
+def module_value(facts, name):
+    """Symbolic value of a module-level name bound exactly once (a named register, a shared `Arithmetic('0')`), else None."""
+    node = facts.assign_nodes.get(name)
+    if node is None:
+        return None
+    binds = 0
+    for n in ast.walk(facts.tree):
+        if isinstance(n, ast.Name) and n.id == name and isinstance(n.ctx, (ast.Store, ast.Del)):
+            binds += 1
+        if isinstance(n, ast.Global) and name in n.names:
+            return None
+    if binds != 1:
+        return None
+    from ..pathwalk import Walker, PathState
+    try:
+        return Walker(facts).sym(node.value, PathState())
+    except AnalysisError:
+        return None
+
+
 def field_source(v, facts, item):
     """Normalise a constructor argument of an expansion into ('reg', n) | ('imm', n) | ('off', k) | k (operand index) |
     ('hi', src) | ('lo', src) | ('expr', k) | None."""
+    if v[0] == 'attr' and len(v) == 3:
+        # a field of a module-level record object (CALL_REGISTERS.link)
+        base = v[1]
+        if base[0] == 'name' and len(base) == 2:
+            base = module_value(facts, base[1]) or base
+        if base[0] == 'new' and base[1] in facts.classes:
+            from ..pathwalk import Walker
+            got = Walker(facts).field_of_new(base, v[2])
+            if got is not None:
+                return field_source(got, facts, item)
+        return None
+    if v[0] == 'name' and len(v) == 2:
+        got = module_value(facts, v[1])
+        if got is not None and got != v:
+            return field_source(got, facts, item)
+        return None
     if is_const(v):
         if isinstance(v[1], str):
             regs = facts.tables.get('REGISTERS', {})
@@ -51,6 +87,51 @@ def field_source(v, facts, item):
         inner = field_source(v[2][0], facts, item)
         return (v[1].lower(), inner)
     return None
+
+
+def require_read(name, what, insts, keys):
+    """A template comparison is a verdict only about fields that were read: a field that is passed to the constructor but whose
+    value the template language does not cover (None) ends the check without verdict."""
+    for cls, base, srcs, node, raw in insts:
+        if base is None:
+            raise AnalysisError('{} ({}): the mnemonic of the instruction built at line {} ({}) is not understood'.format(name, what, node.lineno, show(raw.get('name'))[:60]))
+        for k in keys:
+            if k in raw and srcs.get(k) is None:
+                raise AnalysisError('{} ({}): field {} = {} of the instruction built at line {} is not understood'.format(name, what, k, show(raw[k])[:60], node.lineno))
+
+
+def wrap_kind(path):
+    """How the value the li size decision compares is derived from the evaluated operand: 'wrapped' (reduced to signed 32 bits:
+    c_int32(v).value, sign_extend(v, 32)), 'raw' (the evaluation itself), 'unknown' (something else), None (no comparison of an
+    evaluation on the path)."""
+    is_eval = lambda t: t[0] == 'mcall' and t[2] == 'eval'
+    kinds = set()
+    for t, pol, _ in path.conds:
+        for c in IS.find_all(t, lambda x: x[0] == 'cmp'):
+            for side in (c[2], c[3]):
+                if not IS.find_all(side, is_eval):
+                    continue
+                x = side
+                while x[0] == 'res':
+                    x = x[3]
+                if is_eval(x):
+                    kinds.add('raw')
+                elif x[0] == 'attr' and x[2] == 'value' and x[1][0] == 'call' and x[1][1] in ('c_int32', 'ctypes.c_int32') and len(x[1][2]) == 1:
+                    kinds.add('wrapped')
+                elif x[0] == 'call' and x[1] == 'sign_extend' and len(x[2]) == 2 and x[2][1] == C(32):
+                    kinds.add('wrapped')
+                elif x[0] == 'call' and x[1] == 'sign_extend' and len(x[2]) == 2 and is_const(x[2][1]) and isinstance(x[2][1][1], int):
+                    kinds.add('raw')          # reduced to another width: understood, and not the 32-bit value
+                elif x[0] == 'attr' and x[2] == 'value' and x[1][0] == 'call' and len(x[1][2]) == 1 and x[1][1] in (
+                        'c_int8', 'c_int16', 'c_int64', 'c_uint8', 'c_uint16', 'c_uint32', 'c_uint64', 'c_longlong', 'c_short', 'c_byte'):
+                    kinds.add('raw')          # another C integer type: not the signed 32-bit value
+                else:
+                    kinds.add('unknown')
+    if not kinds:
+        return None
+    if 'raw' in kinds:
+        return 'raw'
+    return 'unknown' if 'unknown' in kinds else 'wrapped'
 
 
 def templates(facts):
@@ -178,6 +259,12 @@ def run(repo, tier):
                                                                         '{} unpacks {} operands, the documented form has {}'.format(name, arity, len(ops)), line=node.lineno), nontrivial=False)
             want = dict(fields)
             got = {k: v for k, v in srcs.items() if k in want or v is not None}
+            unread = sorted(k for k in want if k in raw and srcs.get(k) is None)
+            if got_base is None or unread:
+                # the expansion is built, but what is handed to it is not read (a value the template language does not cover)
+                what = 'its mnemonic ({})'.format(show(raw.get('name'))[:60]) if got_base is None else \
+                    'its field {} = {}'.format(unread[0], show(raw[unread[0]])[:60])
+                raise AnalysisError('{}: the expansion is built at line {} but {} is not understood'.format(name, node.lineno, what))
             ok = got_base == base and got == want
             rep.check(ok, 'R5.1.template', '{} -> {} {}'.format(name, base, want),
                       lambda name=name, got_base=got_base, got=got, want=want, node=node: Finding(
@@ -202,10 +289,15 @@ def run(repo, tier):
     shapes = set()
     for path, arity, insts, row in li:
         node = insts[0][3] if insts else pa.loop
-        wrapped = any(IS.find_all(t, lambda x: x[0] == 'call' and x[1] == 'c_int32') for t, pol, _ in path.conds)
+        wk = wrap_kind(path)
+        if wk in (None, 'unknown'):
+            rep.undecided('li: how the value of the size decision is derived from the operand is not understood on the path [{}]'.format(path.cond_text()[-120:]))
+        wrapped = wk != 'raw'
         rep.check(wrapped, 'R5.2.li-wrap', 'li: size decision taken on the value reduced to signed 32 bits',
                   lambda node=node: Finding('R5.2.li-wrap', 'transform_pseudo_instructions', node,
                                             'the li size decision is not taken on the 32-bit two\'s-complement value (values >= 2^31 denote negatives)', line=node.lineno), nontrivial=False)
+        if len(insts) in (1, 2):
+            require_read('li', 'R5.2', insts, ('rd', 'rs1', 'imm'))
         if len(insts) == 1:
             cls, base, srcs, node, raw = insts[0]
             ok = base == 'addi' and srcs.get('rd') == 0 and srcs.get('rs1') == ('reg', 0) and srcs.get('imm') in (('lo', ('expr', 1)), ('expr', 1))
@@ -230,6 +322,8 @@ def run(repo, tier):
         shapes = set()
         for path, arity, insts, row in tmpl.get(name, []):
             node = insts[0][3] if insts else pa.loop
+            if len(insts) in (1, 2):
+                require_read(name, 'R5.3', insts, ('rd', 'rs1', 'imm', 'is_auipc_jump'))
             if len(insts) == 1:
                 cls, base, srcs, node, raw = insts[0]
                 shapes.add('near')
